@@ -51,7 +51,12 @@ class Z3Alg:
   def divp(s,x,k):
     # x div 2^k / x mod 2^k: uninterpreted for symbolic k (everything the prover knows comes from the schemas), native for numerals
     k=z3.simplify(k) if isinstance(k,z3.ExprRef) else z3.IntVal(k)
-    if z3.is_int_value(k) and 0<=k.as_long()<=4096: return x / z3.IntVal(2**k.as_long())
+    if z3.is_int_value(k) and 0<=k.as_long()<=4096:
+      d=2**k.as_long()
+      # (x div a) div b == x div (a*b) for positive numerals (schema div-div, cross-checked): keeps nested shifts flat
+      while isinstance(x,z3.ArithRef) and z3.is_app(x) and x.decl().kind()==z3.Z3_OP_IDIV and z3.is_int_value(x.arg(1)) and x.arg(1).as_long()>0:
+        d*=x.arg(1).as_long(); x=x.arg(0)
+      return x / z3.IntVal(d)
     return s.f_divp(x,k)
   def modp(s,x,k):
     k=z3.simplify(k) if isinstance(k,z3.ExprRef) else z3.IntVal(k)
@@ -140,9 +145,10 @@ def _shl_or(A,bor,v,k,u):
   return A.imp(A.and_(k>=0, v>=0, 0<=u, u<A.pow2(k)), A.bor2(A.mulp(v,k),u, A.mulp(v,k)+u))
 def _cat_range(A,v,a,k,u,t):
   return A.imp(A.and_(a>=0, k>=0, A.eq(t,a+k), 0<=v, v<A.pow2(a), 0<=u, u<A.pow2(k)), A.and_(0<=A.mulp(v,k)+u, A.mulp(v,k)+u<A.pow2(t)))
-def _pw_num(A,k,c): return A.imp(A.and_(A.eq(k,c),c>=0), A.eq(A.pow2(k),2**max(c,0)))
+def _pw_num(A,k,c): return A.and_(A.imp(A.and_(A.eq(k,c),c>=0), A.eq(A.pow2(k),2**max(c,0))), A.imp(A.and_(k>=c,c>=0), A.pow2(k)>=2**max(c,0)), A.imp(A.and_(k>=0,k<=c), A.pow2(k)<=2**max(c,0)))
+def _div_div(A,x,a,b): return A.imp(A.and_(a>=0,b>=0), A.eq(A.divp(A.divp(x,a),b), A.divp(x,a+b)))
 LEMMAS = {
- 'comm':(2,_comm), 'pw-num':(2,_pw_num),
+ 'comm':(2,_comm), 'pw-num':(2,_pw_num), 'div-div':(3,lambda A,x,lo,w:_div_div(A,x,lo,w)),
  'pw-pos':(1,_pw_pos), 'pw-mono':(2,_pw_mono), 'pw-succ':(2,_pw_succ), 'pw-add':(3,_pw_add),
  'and-mask':(3,_and_mask), 'and-mask-l':(3,_and_mask_l), 'and-range':(2,_and_range), 'and-clear':(5,_and_clear),
  'and-clearbit':(3,_and_clearbit), 'and-one':(2,_and_one),
@@ -277,7 +283,9 @@ class Theory:
     K=[k[0] for k in s.K]
     for k in K:
       for c in numerals:
-        if 0<=c<=1100: out.append(z3.Implies(k==c, s.A.f_pow2(k)==z3.IntVal(2**c)))
+        if 0<=c<=1100:
+          out.append(z3.Implies(k==c, s.A.f_pow2(k)==z3.IntVal(2**c)))
+          out.append(z3.Implies(k>=c, s.A.f_pow2(k)>=z3.IntVal(2**c))); out.append(z3.Implies(z3.And(k>=0,k<=c), s.A.f_pow2(k)<=z3.IntVal(2**c)))
     Z=z3.IntVal(0); ONE=z3.IntVal(1)
     for k in K: out.append(_pw_pos(A,k))
     for j,k in itertools.permutations(K,2):
